@@ -23,9 +23,9 @@ theorem noHigh_mono {o : ParseOptions} {acc : List Char} {pe cp : Nat} {r : List
     · rename_i hc; simp [hc, strictOpts] at h
 
 theorem flushChar_mono {o : ParseOptions} {acc : List Char} {high : Option (Nat × Nat)} {c : Char}
-    {r : List Char} {pos : Nat} {a : List Char} {hi : Option (Nat × Nat)} {r' : List Char} {p' : Nat}
-    (h : flushChar strictOpts acc high c r pos = .more a hi r' p') :
-    flushChar o acc high c r pos = .more a hi r' p' := by
+    {r : List Char} {pos pn : Nat} {a : List Char} {hi : Option (Nat × Nat)} {r' : List Char} {p' : Nat}
+    (h : flushChar strictOpts acc high c r pos pn = .more a hi r' p') :
+    flushChar o acc high c r pos pn = .more a hi r' p' := by
   unfold flushChar at h ⊢
   cases high with
   | none => simpa using h
@@ -54,9 +54,9 @@ theorem strEscU_mono {o : ParseOptions} {bad : Bool} {acc : List Char} {high : O
       · simp [hl, strictOpts] at h
 
 theorem strEsc_mono {o : ParseOptions} {bad : Bool} {acc : List Char} {high : Option (Nat × Nat)}
-    {r : List Char} {pos : Nat} {a : List Char} {hi : Option (Nat × Nat)} {r' : List Char} {p : Nat}
-    (h : strEsc strictOpts bad acc high r pos = .more a hi r' p) :
-    strEsc o bad acc high r pos = .more a hi r' p := by
+    {r : List Char} {pos pn : Nat} {a : List Char} {hi : Option (Nat × Nat)} {r' : List Char} {p : Nat}
+    (h : strEsc strictOpts bad acc high r pos pn = .more a hi r' p) :
+    strEsc o bad acc high r pos pn = .more a hi r' p := by
   unfold strEsc at h ⊢
   cases r with
   | nil => simp at h
